@@ -27,18 +27,19 @@ type Announcement struct {
 func UnmarshalAnnouncements(data []byte) (announcements []Announcement, err error) {
 	buff := bytes.NewBuffer(data)
 
-	if l, cErr := cboring.ReadArrayLength(buff); cErr != nil {
-		err = cErr
+	var l uint64
+	if l, err = cboring.ReadArrayLength(buff); err != nil {
 		return
-	} else {
-		announcements = make([]Announcement, l)
 	}
 
-	for i := 0; i < len(announcements); i++ {
-		if cErr := cboring.Unmarshal(&announcements[i], buff); cErr != nil {
+	// Do not allocate based on the announced length, which might be arbitrarily large. Grow with the read items.
+	for i := uint64(0); i < l; i++ {
+		var announcement Announcement
+		if cErr := cboring.Unmarshal(&announcement, buff); cErr != nil {
 			err = fmt.Errorf("unmarshalling Announcement %d failed: %v", i, cErr)
 			return
 		}
+		announcements = append(announcements, announcement)
 	}
 
 	return
